@@ -1042,6 +1042,8 @@ func cmdCli(args []string) error {
 	if err != nil {
 		return err
 	}
+	poolRecInit()
+	defer poolRecFlush()
 	for _, ln := range rows {
 		var sc cScenario
 		if err := json.Unmarshal(ln, &sc); err != nil {
